@@ -16,6 +16,7 @@
 -/
 import DymVerif.Lemmas.IncentInv
 import DymVerif.Lemmas.IncentStreams
+import DymVerif.Lemmas.IncentBound
 import DymVerif.Lemmas.IncentPaging
 import DymVerif.Lemmas.IncentShare
 import DymVerif.Lemmas.GenEqIncent
@@ -286,12 +287,52 @@ example : (run (init 100 500) ([.begin 1, .end_] ++ sixGauges 101 ++
     sums them), per denom -/
 def streamerOwed (s : State) (i : Nat) : Nat := owedL s i
 
-/-- **for every history**: if at its end no stream has handed out more than its coins (then none ever
-    had: `streams_monotone`), the streamer account covers all upcoming and active streams -/
+/-- the histories the stream clauses quantify over: creation and top-up of gauges and streams, termination,
+    lock and rollapp changes, blocks, epoch boundaries, iteration limits — everything except re-targeting
+    a stream's records by governance (`ReplaceStreamDistributionProposal`), and module accounts do not sign -/
+def Admissible (ops : List Op) : Prop := ∀ op ∈ ops, op.wf ∧ op.wfS ∧ op.noRetarget
+
+/-- **for every admissible history: a stream never hands out more than its total** (fewer than 2^64-1
+    streams created).  Rests on the invariant `distributed + shares still pending in this epoch +
+    (remaining epochs − 1)·(shares of one epoch) ≤ coins` (`Incent.SBst`), kept by the paged distribution
+    for every sequence of limits (`ptrLoop_window`) and re-established at every epoch start. -/
+theorem stream_bounded (now mi : Nat) (ops : List Op) (hw : Admissible ops)
+    (hlen : (run (init now mi) ops).streams.length < maxU64) :
+    ∀ st ∈ (run (init now mi) ops).streams, ∀ i, amt st.distributed i ≤ amt st.coins i :=
+  SB_noOver _ (run_inv ops _ (init_inv now mi) hw hlen).sb
+
+/-- the invariant itself, for use by other properties -/
+theorem stream_invariant (now mi : Nat) (ops : List Op) (hw : Admissible ops)
+    (hlen : (run (init now mi) ops).streams.length < maxU64) : Inv (run (init now mi) ops) :=
+  run_inv ops _ (init_inv now mi) hw hlen
+
+/-- **for every admissible history: the streamer account covers all upcoming and active streams** -/
+theorem module_solvent_streamer (now mi : Nat) (ops : List Op) (hw : Admissible ops)
+    (hlen : (run (init now mi) ops).streams.length < maxU64) (i : Nat) :
+    streamerOwed (run (init now mi) ops) i ≤ amt ((run (init now mi) ops).bank.get streamerAddr) i :=
+  run_solvent ops _ (init_ginv now mi) (init_sstruct now mi) (init_solv now mi)
+    (fun op ho => ⟨(hw op ho).1, (hw op ho).2.1⟩) (stream_bounded now mi ops hw hlen) i
+
+/-- without the admissibility restriction only the conditional form holds -/
 theorem module_solvent_streamer_partial (now mi : Nat) (ops : List Op) (hw : ∀ op ∈ ops, op.wf ∧ op.wfS)
     (hno : ∀ st ∈ (run (init now mi) ops).streams, ∀ i, amt st.distributed i ≤ amt st.coins i) (i : Nat) :
     streamerOwed (run (init now mi) ops) i ≤ amt ((run (init now mi) ops).bank.get streamerAddr) i :=
   run_solvent ops _ (init_ginv now mi) (init_sstruct now mi) (init_solv now mi) hw hno i
+
+/-- re-targeting in the middle of an epoch is excluded for a reason: stream 1 (1000 coins, gauges 1 and 3)
+    is half served with limit 1, then re-targeted to gauge 3 alone — gauge 3 now receives the whole epoch
+    amount: 1500 of 1000 handed out, and the next EndBlock cannot pay stream 2 (block processing stops) -/
+def retargetHistory : List Op :=
+  [.begin 1, .end_, .createGauge 0 true 0 1 true [] 101 1, .createGauge 0 true 0 1 true [] 101 1,
+   .createGauge 0 true 0 1 true [] 101 1, .locks [⟨1, 0, 100, 3600⟩], .fund streamerAddr [2000],
+   .createStream [1000] [⟨1, 1⟩, ⟨3, 1⟩] 101 1 1, .createStream [1000] [⟨2, 1⟩] 101 1 1,
+   .begin 3601, .end_, .replaceDistr 1 [⟨3, 1⟩], .begin 10, .end_, .begin 10, .end_]
+
+theorem stream_bounded_retarget_counterexample :
+    (run (init 100 1) retargetHistory).streams.map (fun s => (s.id, s.coins, s.distributed)) = [(1, [1000], [1500]), (2, [1000], [])] ∧
+    (run (init 100 1) retargetHistory).halted = true := by decide
+
+example : Admissible overHistory := by unfold Admissible; decide
 
 /-- **for every history**: streams are never removed, keep their coins and ids, and their distributed
     coins only grow -/
@@ -309,7 +350,6 @@ theorem module_to_distribute_exact (s : State) (alloc : Coins) (h : moduleToDist
     (hno : NoOver s.streams) (i : Nat) : amt alloc i = streamerOwed s i :=
   moduleToDistribute_amt s alloc h hno i
 
-example : ∀ op ∈ overHistory, op.wf ∧ op.wfS := by decide
 
 /-! ## 6. the histories that depended on the iteration limit before fixes D2 / D3 (regressions) -/
 
